@@ -983,7 +983,7 @@ class C13(core.Check):
         "select()/poll() never return an empty ready list before the timeout has elapsed on time.time(); time.time() is monotonic",
         "alarm handles passed to remove_alarm are handles returned by alarm() (identified by their tie-break number)",
         "callbacks are deterministic functions of (their identity, how often they were called before)",
-        "one run() per loop object; signals / InterruptedError / run_in_executor / watch_queue are not modelled",
+        "the models cover one run() per loop object (run() called again after an exception / ExitMainLoop is covered by the adapter scenarios rerun_* on the real runtimes only); signals / InterruptedError / run_in_executor / watch_queue are not modelled",
         "adapters (asyncio, tornado, twisted, trio) are covered by scenarios on the real runtimes only (no theorem); glib not covered",
     ]
 
@@ -1147,13 +1147,23 @@ class C13(core.Check):
         """5..10 pending alarms registered in an arbitrary order, inner entries removed (before run() and from
         callbacks), sometimes re-added: the alarm container must keep firing them in due order"""
         if delays is None:
-            n = rng.choice([5, 6, 7, 7, 8, 9, 10])
-            delays = rng.sample(range(1, 2 * n), n) if rng.random() < 0.7 else [rng.randrange(1, n) for _ in range(n)]
+            n = rng.choice([5, 7, 7, 8, 9, 10, 11, 12])
+            r = rng.random()
+            if r < 0.4:
+                delays = rng.sample(range(1, 3 * n), n)                 # arbitrary registration order
+            elif r < 0.5:
+                delays = [rng.randrange(1, n) for _ in range(n)]        # with equal due times
+            else:
+                # registration order = a random binary-heap layout (each entry not earlier than its parent), so
+                # that sibling subtrees are unrelated: explores the shapes a heap-based container can take
+                delays = [rng.randint(1, 3)]
+                for i in range(1, n):
+                    delays.append(delays[(i - 1) // 2] + rng.choice([0, 1, 1, 2, 3, 5, 8]))
         n = len(delays)
         setup = [["alarm", d, 100 + i] for i, d in enumerate(delays)]
-        for _ in range(rng.choice([1, 1, 2, 3])):
+        for _ in range(rng.choice([1, 2, 2, 3, 4])):
             setup.append(["rm_alarm", rng.randrange(n)])
-            if rng.random() < 0.25:
+            if rng.random() < 0.2:
                 setup.append(["alarm", rng.randrange(1, 2 * n), 100 + n + len(setup)])
         beh = []
         for _ in range(rng.choice([0, 0, 1, 2])):      # a callback that removes another pending alarm
@@ -1169,7 +1179,7 @@ class C13(core.Check):
             yield from self.small_scenarios(loop, rng, tier)
             for _ in range(2000 if tier == "quick" else 60000):
                 yield self.random_case(loop, rng)
-            for _ in range(500 if tier == "quick" else 8000):
+            for _ in range(1000 if tier == "quick" else 10000):
                 yield self.many_alarms_case(loop, rng)
             if tier == "thorough":     # every registration order of 7 distinct delays, one inner removal each
                 for perm in itertools.permutations(range(1, 8)):
